@@ -149,6 +149,11 @@ type Net struct {
 	// them (TCP is a byte stream: two writes made in quick succession may well reach the reader in one
 	// read). nil = never. Only consulted for a write that Seg leaves whole and undelayed.
 	Coalesce func(p *Pipe) bool
+	// EOFWithData: when true, a FIN queued directly behind a data segment is delivered with it, and the
+	// Read that hands out the last buffered bytes returns them TOGETHER with io.EOF — legal for an
+	// io.Reader and what TLS or in-memory connections supplied through a custom dialer/listener do,
+	// though a kernel TCP socket never does.
+	EOFWithData bool
 	// ShortRead may shorten a read that could return avail bytes (nil = return everything asked).
 	ShortRead func(avail int) int
 	// WriteFault may inject a torn write: return (k>=0, err) to accept only k bytes and fail.
@@ -547,6 +552,12 @@ func (c *Conn) Read(b []byte) (int, error) {
 			c.Reads++
 			p.wwait.wake()
 			c.n.W.Logf("read c%d n=%d", c.id, n)
+			if c.n.EOFWithData && len(p.rcv) == 0 && p.eof {
+				c.n.W.Probe("read_returned_data_with_eof")
+				c.n.mu.Unlock()
+
+				return n, io.EOF
+			}
 			c.n.mu.Unlock()
 
 			return n, nil
@@ -846,6 +857,15 @@ func (p *Pipe) arm() {
 			}
 			p.Delivered += len(s.data)
 			p.DMarks = append(p.DMarks, Mark{p.Delivered, p.n.W.Now()})
+			if p.n.EOFWithData && p.sink == nil && !p.cutDone && len(p.segs) > 0 && p.segs[0].fin {
+				// the FIN rides on the last data segment
+				p.segs = p.segs[1:]
+				p.eof = true
+				p.finAt = p.n.W.Now()
+				p.finSeen = true
+				onEOF = p.onEOF
+				p.n.W.Logf("deliver %s FIN (with the data)", p.name)
+			}
 			if p.sink != nil {
 				sink = p.sink
 				p.wwait.wake()
